@@ -323,7 +323,24 @@ var otherKinds = []func() interface{}{
 	func() interface{} { return json.Number("99999999999999999999999999") },
 	func() interface{} { return "bm90IGJhc2U2NA" }, // base64 without padding
 	func() interface{} { return "!!not base64!!" },
+	func() interface{} { return nest(60, false) },
+	func() interface{} { return nest(3000, true) },
 	func() interface{} { return "2024-13-45T99:00:00Z" },
+}
+
+// nest builds a deeply nested array or object.
+func nest(depth int, object bool) interface{} {
+	var v interface{} = "bottom"
+
+	for i := 0; i < depth; i++ {
+		if object {
+			v = map[string]interface{}{"data": v}
+		} else {
+			v = []interface{}{v}
+		}
+	}
+
+	return v
 }
 
 func mutateTree(t *core.Tape, msg []byte) ([]byte, string) {
